@@ -162,6 +162,23 @@ def search(seed=0, trials=40, tol=1e-9):
                 info = dict(call=c, fix_psi=fix_psi, fixed=fixed.tolist(), history=[k for k in range(len(seq))])
                 cmp("set_link_exponents.gradient", mo.psi_gradient, Gs, info)
                 cmp("set_link_exponents.laplacian", mo.psi_laplacian, Ls, info)
+    # short-lived meshes that share one triangulation but not their geometry (a parameter sweep re-meshes and drops devices all the time): each must
+    # get ITS operators - the builders' results are functions of their arguments alone, whatever was built before and wherever the mesh object lives
+    from tdgl.finite_volume.mesh import Mesh as _Mesh
+    base = random_mesh(rng, n=60)
+    for q in range(24):
+        fac = (1.0 + 0.37 * q) * (1e-3 if q % 3 == 2 else 1.0)
+        m_q = _Mesh.from_triangulation(base.sites * fac, base.elements)
+        D_q, G_q, L_q, _ = dense_specs(m_q)
+        n_cmp += 3
+        for name, got, want in (("build_gradient[scalar]", ops.build_gradient(m_q), G_q), ("build_divergence", ops.build_divergence(m_q), D_q),
+                                ("build_laplacian[scalar]", ops.build_laplacian(m_q)[0], L_q)):
+            got = got.toarray()
+            err = np.abs(got - want).max() / (np.abs(want).max() + 1e-300)
+            if not err < tol:
+                bad.append(dict(what=name + " on a mesh built after other meshes of the same triangulation were built and dropped: operators of an EARLIER mesh are returned",
+                                mesh_number=q, n_sites=len(m_q.sites), max_rel_err=float(err)))
+        del m_q, D_q, G_q, L_q
     return bad, n_cmp
 
 
